@@ -877,17 +877,42 @@ def run(ctx, proofs):
                 failures.append((bname, binary, c, r, bad))
             else:
                 shutil.rmtree(r["dir"], ignore_errors=True)
-    # a time-out observed while 16 processes ran side by side is re-measured under light load
-    to_idx = [i for i, f in enumerate(failures) if f[3]["timed_out"]]
-
+    # a time-out observed while 16 processes ran side by side is re-measured under light
+    # load. Per input class at most 3 are re-measured at first; when all of them time out
+    # again the remaining time-outs of that class are taken as they are (a defect that
+    # makes a whole class hang would otherwise cost 20 s per input), otherwise the class
+    # is re-measured further.
     def remeasure(i):
         bname, binary, c, r, bad = failures[i]
         r2 = run_case(binary, c, os.path.join(root, "alone-" + bname), i)
         return i, r2
-    with concurrent.futures.ThreadPoolExecutor(max_workers=4) as ex:
-        for i, r2 in ex.map(remeasure, to_idx):
+    pending = collections.defaultdict(list)
+    for i, f in enumerate(failures):
+        if f[3]["timed_out"]:
+            pending[(f[0], f[2].kind)].append(i)
+    confirmed = collections.Counter()
+    rerun_alone = 0
+    for key in pending:                 # smallest inputs first: the likeliest to pass alone
+        pending[key].sort(key=lambda i: failures[i][2].size())
+    while pending:
+        batch = []
+        for key in list(pending):
+            take, pending[key] = pending[key][:3], pending[key][3:]
+            batch += [(key, i) for i in take]
+        with concurrent.futures.ThreadPoolExecutor(max_workers=4) as ex:
+            results = dict(ex.map(remeasure, [i for _, i in batch]))
+        rerun_alone += len(batch)
+        passed_some = set()
+        for key, i in batch:
+            r2 = results[i]
             failures[i] = failures[i][:3] + (r2, judge(r2))
-    rerun_alone = len(to_idx)
+            if r2["timed_out"]:
+                confirmed[key] += 1
+            else:
+                passed_some.add(key)
+        for key in list(pending):
+            if not pending[key] or (key not in passed_some and confirmed[key] >= 3):
+                del pending[key]          # nothing left, or the class is confirmed to time out
     failures = [f for f in failures if f[4]]
     run_s = time.time() - t_run
 
